@@ -3,6 +3,7 @@ package mon
 import (
 	"bytes"
 	"fmt"
+	"os"
 	"io"
 	"io/ioutil"
 
@@ -26,6 +27,11 @@ type C01 struct {
 	W          *sim.World // source of read-only traffic payloads
 	traceBuf   io.Writer
 	oldTxs     [][]byte
+	// C11 mode: the twin never sees the transactions that were rejected without a trace (nor any read-only
+	// call); if those really leave nothing behind — in the stores *or in memory* — every later result and
+	// every app hash must still agree.
+	Prop          string
+	SkipTraceless bool
 }
 
 func NewC01(seed uint64, idx *sim.TxIndex) *C01 {
@@ -46,6 +52,16 @@ func NewC01(seed uint64, idx *sim.TxIndex) *C01 {
 	m.Trace = r.Bool()
 	m.T = sim.NewEnv(idx)
 	m.T.NoSnap = true
+	m.Prop = "C01"
+	return m
+}
+
+// NewC11Twin: an instance that is spared every traceless rejection and every read-only call.
+func NewC11Twin(seed uint64, idx *sim.TxIndex) *C01 {
+	m := NewC01(seed, idx)
+	m.Prop, m.SkipTraceless = "C11", true
+	m.RestartPct, m.ReadsPct = 0, 0
+	m.Pruning, m.Trace = &[2]int64{0, 1}, false
 	return m
 }
 
@@ -106,6 +122,11 @@ func (m *C01) OnCall(e *sim.Env, c *sim.Call) {
 		return
 	}
 	diverge := func(what, detail string) {
+		if m.SkipTraceless {
+			e.Violate("C11", "traceless-rejections-matter/"+c.Kind+"/"+what, fmt.Sprintf("%s@%d (%s): an instance that never saw the transactions rejected without a trace (nor the read-only calls) differs in %s: %s",
+				c.Kind, c.H, c.Entry.Label, what, detail), c)
+			return
+		}
 		e.Violate("C01", "divergence/"+c.Kind+"/"+what, fmt.Sprintf("%s@%d (%s): instances differ in %s: %s [twin: pruning %v, trace %v, restarts %d]",
 			c.Kind, c.H, c.Entry.Label, what, detail, m.Pruning, m.Trace, t.Stats["restarts"]), c)
 	}
@@ -128,6 +149,12 @@ func (m *C01) OnCall(e *sim.Env, c *sim.Call) {
 			diverge("BeginBlock.Events", fmt.Sprintf("%d vs %d events", len(c.ResBegin.Events), len(tc.ResBegin.Events)))
 		}
 	case "deliver":
+		if only := os.Getenv("VCHECK_TWIN_SKIPSEQ"); only != "" && only != fmt.Sprint(c.Entry.Seq) {
+			// debugging aid: skip exactly one call
+		} else if m.SkipTraceless && os.Getenv("VCHECK_TWIN_NOSKIP") == "" && c.Panic == "" && c.ResDeliver.Code != 0 && c.Pre.Raw != nil && len(sim.DiffRaw(c.Pre.Raw, c.Post.Raw)) == 0 {
+			e.Count("c11.twin.traceless_rejections_skipped")
+			return
+		}
 		m.extraReads()
 		tc = t.DeliverTx(c.Tx, c.Entry.Label, nil)
 		a, b := c.ResDeliver, tc.ResDeliver
@@ -152,10 +179,23 @@ func (m *C01) OnCall(e *sim.Env, c *sim.Call) {
 		}
 	case "commit":
 		tc = t.Commit()
-		if !bytes.Equal(tc.ResCommit.Data, c.ResCommit.Data) {
+		if m.SkipTraceless {
+			// A rejected transaction may legitimately re-write identical bytes (a zero fee "moved" to the collector):
+			// the content is untouched but IAVL node versions, hence the hash, change. The statement speaks about
+			// the state, so the twin is compared by content here, not by hash.
+			if c.Post.Raw != nil && tc.Panic == "" {
+				if d := sim.DiffRaw(c.Post.Raw, t.A.DumpRaw()); len(d) > 0 {
+					diverge("state-content", fmt.Sprintf("%d keys differ after commit, first %s", len(d), d[0].String()))
+				}
+			}
+		} else if !bytes.Equal(tc.ResCommit.Data, c.ResCommit.Data) {
 			diverge("app-hash", fmt.Sprintf("%X vs %X", c.ResCommit.Data, tc.ResCommit.Data))
 		}
-		e.Count("c01.heights_compared")
+		if m.SkipTraceless {
+			e.Count("c11.twin.heights_compared")
+		} else {
+			e.Count("c01.heights_compared")
+		}
 		if tc.Panic == "" && m.R.Chance(m.RestartPct) {
 			if err := t.Restart(); err != nil {
 				e.Violate("C01", "reopen-failed", fmt.Sprintf("twin could not be reopened after commit %d: %v [pruning %v]", c.H, err, m.Pruning), c)
@@ -171,6 +211,11 @@ func (m *C01) OnCall(e *sim.Env, c *sim.Call) {
 		m.extraReads()
 	default:
 		return // read-only traffic on the primary is not replicated (the twin has its own)
+	}
+	if os.Getenv("VCHECK_TRACE") != "" && tc != nil && c.Post.Raw != nil && !t.Dead {
+		if d := sim.DiffRaw(c.Post.Raw, t.A.DumpRaw()); len(d) > 0 {
+			fmt.Printf("   TWIN-STATE-DIFF after %s@%d (%s): %d keys, first %s\n", c.Kind, c.H, c.Entry.Label, len(d), d[0].String())
+		}
 	}
 	if tc != nil && (tc.Panic != "") != (c.Panic != "") {
 		diverge("panic", fmt.Sprintf("primary %q twin %q", firstLine(c.Panic), firstLine(tc.Panic)))
